@@ -449,6 +449,16 @@ func c11Scenarios(th bool) []vx.Scenario {
 		}
 	}
 	rec(nil, nil)
+	// a backlog of several MiB between two polls: order and content survive
+	{
+		big := make([]msg, 7)
+		for i := range big {
+			d := bytes.Repeat([]byte{byte('a' + i)}, 1<<20)
+			big[i] = msg{i%2 == 1, d}
+		}
+		out = append(out, c11Down("c11/down/backlog-7MiB/poll-at-end", big, []int{7}, 0))
+		out = append(out, c11Down("c11/down/backlog-7MiB/poll-early", big, []int{0, 5}, 0))
+	}
 	// the backend closes right after its last message; the client polls afterwards
 	for i, m := range al {
 		out = append(out, c11DownClose(fmt.Sprintf("c11/down-then-close/[%d]", i), []msg{m}, []int{1}, true, pb))
